@@ -113,6 +113,9 @@ def _worker_main(conn, pid_name, repo):
         conn.send(('done',))
 
 
+MAX_WATCHDOG_HITS = 6
+
+
 def _cpu_seconds(pid):
     """user + system CPU seconds used so far by process pid (0.0 if it cannot be read)."""
     try:
@@ -236,6 +239,24 @@ class Pool:
                     done += 1
                     rest = [i for i in w['pending'] if i != idx]
                     queue.extend(reversed(rest))
+                    self.watchdog_hits = getattr(self, 'watchdog_hits', 0) + 1
+                    if self.watchdog_hits >= MAX_WATCHDOG_HITS:
+                        # the verdict is settled (a non-terminating case is a violation); every further hanging case
+                        # would cost a full watchdog period, so the rest of the run is abandoned and reported as such
+                        for conn2, w2 in list(self.workers.items()):
+                            try:
+                                w2['proc'].kill()
+                            except Exception:
+                                pass
+                            w2['proc'].join(timeout=5)
+                            conn2.close()
+                        self.workers = {}
+                        self.abandoned = sum(1 for r_ in results if r_ is None)
+                        for i_ in range(n):
+                            if results[i_] is None:
+                                results[i_] = dict(viol=[], stats={}, nontrivial=False, key=None, not_run=True)
+                        done = n
+                        break
                     self._spawn()
             if progress and now - t_last > 15:
                 t_last = now
@@ -437,6 +458,15 @@ def main(argv, here, repo):
     for k, i in enumerate(order):
         results[i] = res_ordered[k]
 
+    abandoned = getattr(pool, 'abandoned', 0)
+    if abandoned:
+        print('ABANDONED: %d of %d cases were not run: %d cases had already exceeded the watchdog (each is reported as a '
+              'violation below)' % (abandoned, n, MAX_WATCHDOG_HITS), flush=True)
+        keep = [i for i in range(n) if not results[i].get('not_run')]
+        cases = [cases[i] for i in keep]
+        results = [results[i] for i in keep]
+        n = len(cases)
+
     herr = [r for r in results if r.get('harness_error')]
     if herr:
         print('HARNESS: %d case(s) raised outside the repository code' % len(herr))
@@ -516,7 +546,7 @@ def main(argv, here, repo):
         evaluations=n,
         distinct_nontrivial=len(keys) + n_nontrivial_nokey,
         rule=getattr(mod, 'RULE', ''),
-        exhaustive=True,
+        exhaustive=not abandoned,
         samples=[cases[i] for i in sorted({0, n // 2, n - 1})] if n else [],
         violating_cases=n_viol_cases,
         violation_signatures={s: len(v) for s, v in by_sig.items()},
